@@ -25,17 +25,21 @@ def price_at(L, h, inp, a, k, which):
 def size(L, h, equity, prices):
     cfg = h.cfg
     f = Fraction(cfg['fee'][0]) + Fraction(cfg['fee'][1]) if cfg['fee'] else 0
-    w = {a: Fraction(cfg['weights'].get(a, 0.0)) for a in h.A}
+    # the configuration constants are doubles: arithmetic among them is double arithmetic in any implementation
+    # (1.0 - buffer, w / sum(w), leverage / sum|w| are evaluated in floats, then taken as exact rationals)
+    w = {a: float(cfg['weights'].get(a, 0.0)) for a in h.A}
     tgt = {}
     if cfg['long_only']:
         tot = sum(w.values())
+        keep = Fraction(1.0 - cfg['buffer'])
         for a in h.A:
-            share = (1 - Fraction(cfg['buffer'])) * equity * (w[a] / tot if tot else 0)
-            tgt[a] = L.floor(share * (1 - f) / prices[a])
+            share = equity * keep * Fraction(w[a] / tot if tot else 0.0)
+            tgt[a] = L.floor((share - f * share) / prices[a])
     else:
         g = sum(abs(x) for x in w.values())
+        ratio = (cfg['leverage'] / g) if g else 0.0
         for a in h.A:
-            pre = Fraction(cfg['leverage']) * equity * (w[a] / g if g else 0)
+            pre = equity * Fraction(w[a] * ratio)
             d = pre - f * L.abs(pre)
             tgt[a] = L.trunc(L.trunc(d) / prices[a])
     return tgt
@@ -45,10 +49,11 @@ def reference_backtest(L, h, inp):
     cfg = h.cfg
     opens, closes, reb, at, burn = h.calendar()
     f = (Fraction(cfg['fee'][0]) + Fraction(cfg['fee'][1])) if cfg['fee'] else 0
-    cash = L.num(Fraction(cfg['cash']))
+    cash = L.num(inp['cash']) if 'cash' in inp else L.num(Fraction(cfg['cash']))
     hold = {a: 0 for a in h.A}
     pending = None
     fills, equity = [], []
+    sizing_equity = []
 
     def do_fill(k, orders):
         nonlocal cash
@@ -67,6 +72,7 @@ def reference_backtest(L, h, inp):
         eq = cash
         for a in h.A:
             eq = eq + hold[a] * prices[a]
+        sizing_equity.append(eq)
         tgt = size(L, h, eq, prices)
         return {a: tgt[a] - hold[a] for a in h.A}
     for k in range(len(h.days)):
@@ -84,4 +90,4 @@ def reference_backtest(L, h, inp):
             for a in h.A:
                 v = v + hold[a] * price_at(L, h, inp, a, k, 'c')
             equity.append((closes[k], v))
-    return dict(fills=fills, cash=cash, holdings=hold, equity=equity)
+    return dict(fills=fills, cash=cash, holdings=hold, equity=equity, sizing_equity=sizing_equity)
